@@ -486,4 +486,20 @@ pub fn c17(cx: &mut Ctx) {
             }
         }
     }
+    // Transfer-Encoding on several lines: framing is declared when ANY of them says chunked (first, middle or
+    // last; original or added by the caller) — on a method that takes no body that is refused
+    for m in ["GET", "HEAD", "DELETE", "POST"] {
+        for tes in [vec!["chunked", "gzip"], vec!["gzip", "chunked"], vec!["gzip", "Chunked", "identity"], vec!["gzip", "identity"], vec!["chunked", "chunked"]] {
+            for split in 0..=tes.len() {
+                for despite in [false, true] {
+                    cx.case("multite");
+                    let orig: Vec<(&str, &[u8])> = tes[split..].iter().map(|v| ("transfer-encoding", v.as_bytes())).collect();
+                    if cx.rec.new_flow(&format!("{} HTTP/1.1 http://a.test/x {}", m, super::hdrs(&orig))) != "ok" { continue; }
+                    for v in &tes[..split] { cx.op(&format!("hdr transfer-encoding {}", hx(v.as_bytes()))); }
+                    if despite { cx.op("despite"); }
+                    cx.op("proceed"); cx.op("write 1000"); cx.op("canproceed"); cx.op("write 1000"); cx.op("canproceed"); cx.op("proceed");
+                }
+            }
+        }
+    }
 }
